@@ -819,3 +819,209 @@ def r_assign(ctx, view):
         ctx.ob("R-ASSIGN", "%s::push:occupied-arm-replaces" % QNAME[Q], ok, q.loc(), why)
         ctx.ob("R-ASSIGN", "%s::push:no-user-comparison" % QNAME[Q], not user, q.loc(),
                "push itself compares nothing (the sifts do)" if not user else "; ".join(user))
+
+
+# ------------------------------------------------------------------------------------------
+# R-READERS / R-RETURNS (C03): what the read accessors read, and where the returned values come from
+# ------------------------------------------------------------------------------------------
+def _calls_in(t):
+    return [x for x in walk(t) if x[0] == "call"]
+
+
+def _is_payload_field(t, call_suffixes, idx):
+    """t == some(call ..<suffix>(..)).idx"""
+    t = strip(t)
+    if t[0] == "field" and t[2] == idx:
+        b = strip(t[1])
+        if b[0] == "some":
+            c = strip(b[1])
+            return c[0] == "call" and c[1].split("::")[-1] in call_suffixes
+    return False
+
+
+def ret_alts(view, f):
+    r = view.vp.local(f, 0)
+    out = []
+
+    def flat(t):
+        if t[0] == "phi":
+            for a in t[4]:
+                flat(a)
+        else:
+            out.append(t)
+    flat(r)
+    return out
+
+
+def r_readers(ctx, view):
+    prog = view.prog
+    vp = view.vp
+    ctx.cur = view
+
+    def ob(key, ok, f, why):
+        ctx.ob("R-READERS", key, bool(ok), f.loc() if f else "", why)
+
+    f = prog.fn("store::Store::len")
+    ctx.anchor("Store::len", f is not None)
+    r = strip(ret_term(view, f))
+    ok = (component(r) and component(r)[0] == "size") or (r[0] == "call" and r[1].split("::")[-1] == "len" and component(r[2][0]))
+    ob("Store::len", ok, f, "len() = %s (must be the size field / the length of one of the containers)" % term_str(r)[:60])
+    f = prog.fn("store::Store::is_empty")
+    ctx.anchor("Store::is_empty", f is not None)
+    r = strip(ret_term(view, f))
+    ok = False
+    if r[0] == "binop" and r[1] == "Eq":
+        a, b = strip(r[2]), strip(r[3])
+        for x, y in ((a, b), (b, a)):
+            if const_int(y) == 0 and ((component(x) and component(x)[0] == "size") or (x[0] == "call" and x[1].split("::")[-1] == "len")):
+                ok = True
+    if r[0] == "call" and r[1].split("::")[-1] == "is_empty" and r[2] and component(r[2][0]):
+        ok = True
+    ob("Store::is_empty", ok, f, "is_empty() = %s (must be `size == 0` / emptiness of a container)" % term_str(r)[:60])
+    for name, lookups in (("get_priority", ("get",)), ("get", ("get_full", "get_key_value")), ("get_mut", ("get_full_mut2",))):
+        f = prog.fn("store::Store::" + name)
+        ctx.anchor("Store::" + name, f is not None)
+        r = ret_term(view, f)
+        cs = [c for c in _calls_in(r) if c[2] and component(c[2][0]) and component(c[2][0])[0] == "map"]
+        ok = len(cs) == 1 and cs[0][1].split("::")[-1] in lookups and len(cs[0][2]) == 2 and is_param(cs[0][2][1], 2)
+        ob("Store::" + name, ok, f, "%s(item) is the map lookup %s on the `item` parameter" % (name, [c[1].split("::")[-1] for c in cs]))
+    for key, ctor, call in (("store::Store::iter", "Iter", "iter"), ("<store::Store as IntoIterator>::into_iter", "IntoIter", "into_iter"),
+                            ("<&store::Store as IntoIterator>::into_iter", "Iter", "iter")):
+        f = prog.fn(key)
+        ctx.anchor(key, f is not None)
+        r = ret_term(view, f)
+        ok = r[0] == "adt" and r[1].endswith(ctor) and len(r[3]) == 1 and strip(r[3][0])[0] == "call" and strip(r[3][0])[1].split("::")[-1] == call and \
+            component(strip(r[3][0])[2][0]) and component(strip(r[3][0])[2][0])[0] == "map"
+        ob(short(key), ok, f, "wraps %s() of the map (%s)" % (call, term_str(r)[:50]))
+    f = prog.fn("store::Store::into_vec")
+    ctx.anchor("Store::into_vec", f is not None)
+    r = ret_term(view, f)
+    names = [c[1].split("::")[-1] for c in _calls_in(r)]
+    cl = prog.closures_of(f.key)
+    okc = len(cl) == 1
+    if okc:
+        cr = strip(ret_term(view, cl[0]))
+        okc = cr[0] == "field" and cr[2] in (0, "0")
+    ok = "collect" in names and "into_iter" in names and okc and any(c[1].split("::")[-1] == "into_iter" and component(c[2][0]) and component(c[2][0])[0] == "map" for c in _calls_in(r))
+    ob("Store::into_vec", ok, f, "collects the items (.0) of map.into_iter()")
+    for Q in QUEUES:
+        for name in ("len", "is_empty", "get", "get_priority", "get_mut", "iter", "into_vec"):
+            q = prog.fn("%s::%s" % (Q, name))
+            ctx.anchor("%s::%s" % (Q, name), q is not None)
+            okf, why = forwards(view, q, "store::Store::" + name, arg_params=[2] if name.startswith("get") else [], recv_field="store")
+            ob("%s::%s" % (QNAME[Q], name), okf, q, why)
+        for key, callee in (("<%s as IntoIterator>::into_iter" % Q, "<store::Store as IntoIterator>::into_iter"),
+                            ("<&%s as IntoIterator>::into_iter" % Q, "store::Store::iter")):
+            q = prog.fn(key)
+            ctx.anchor(key, q is not None)
+            okf, why = forwards(view, q, callee, arg_params=[], recv_field="store")
+            ob(short(key), okf, q, why)
+
+
+def r_returns(ctx, view):
+    prog = view.prog
+    vp = view.vp
+    ctx.cur = view
+
+    def ob(key, ok, f, why):
+        ctx.ob("R-RETURNS", key, bool(ok), f.loc() if f else "", why)
+
+    f = prog.fn("store::Store::swap_remove")
+    ctx.anchor("Store::swap_remove", f is not None)
+    r = strip(ret_term(view, f))
+    ok = False
+    if r[0] == "call" and r[1].split("::")[-1] == "swap_remove_index" and component(r[2][0]) and component(r[2][0])[0] == "map":
+        idx = strip(r[2][1])
+        if idx[0] == "field" and idx[2] in (0, "0"):
+            h = strip(idx[1])
+            ok = h[0] == "call" and h[1].split("::")[-1] == "swap_remove" and component(h[2][0]) and component(h[2][0])[0] == "heap" and \
+                strip(h[2][1])[0] == "field" and is_param(strip(h[2][1])[1], 2)
+    ob("Store::swap_remove", ok, f, "returns map.swap_remove_index(heap.swap_remove(position).0): the entry that was at `position` (%s)" % term_str(r)[:70])
+    cl = prog.fn("store::Store::remove::{closure#0}")
+    ctx.anchor("Store::remove hit-closure", cl is not None)
+    r = strip(ret_term(view, cl))
+    ok = r[0] == "tuple" and len(r[1]) == 3 and _is_payload_field(r[1][0], ("swap_remove_full",), 1) and _is_payload_field(r[1][1], ("swap_remove_full",), 2)
+    if ok:
+        p = strip(r[1][2])
+        ok = p[0] == "call" and p[1].split("::")[-1] == "swap_remove" and component(p[2][0]) and component(p[2][0])[0] == "qp"
+    ob("Store::remove", ok, cl, "returns (item, priority) of the removed entry and its former heap position (%s)" % term_str(r)[:80])
+    cl = prog.fn("store::Store::change_priority::{closure#0}")
+    ctx.anchor("Store::change_priority closure", cl is not None)
+    r = strip(ret_term(view, cl))
+    ok = r[0] == "tuple" and len(r[1]) == 2
+    if ok:
+        p = strip(r[1][1])
+        ok = any(c[1].split("::")[-1] in ("get_unchecked", "index", "get") and component(c[2][0]) and component(c[2][0])[0] == "qp" and
+                 _is_payload_field(c[2][1], ("get_full_mut", "get_full_mut2"), 0) for c in _calls_in(("x", p)) + ([p] if p[0] == "call" else []))
+    ob("Store::change_priority:position", ok, cl, "second component is qp[index of the found entry] (%s)" % term_str(r)[:80])
+    cl = prog.fn("store::Store::change_priority_by::{closure#0}")
+    ctx.anchor("Store::change_priority_by closure", cl is not None)
+    r = strip(ret_term(view, cl))
+    ok = any(c[1].split("::")[-1] in ("get_unchecked", "index", "get") and component(c[2][0]) and component(c[2][0])[0] == "qp" and
+             _is_payload_field(c[2][1], ("get_full_mut", "get_full_mut2"), 0) for c in ([r] if r[0] == "call" else []) + _calls_in(("x", r)))
+    ob("Store::change_priority_by:position", ok, cl, "returns qp[index of the found entry] (%s)" % term_str(r)[:80])
+    for Q in QUEUES:
+        pops = ("pop", "pop_if") if Q == PQ else ("pop_min", "pop_max", "pop_min_if", "pop_max_if")
+        for name in pops:
+            q = prog.fn("%s::%s" % (Q, name))
+            ctx.anchor("%s::%s" % (Q, name), q is not None)
+            alts = []
+            for g in prog.family(q.key):
+                if g is q or any(c[1].split("::")[-1] in ("and_then", "map") for c in _calls_in(ret_term(view, q))):
+                    alts.extend(ret_alts(view, g))
+            want = "swap_remove_if" if name.endswith("_if") else "swap_remove"
+            bad = []
+            for a in alts:
+                a = strip(a)
+                if a[0] == "adt" and a[2] == "None":
+                    continue
+                if a[0] == "call" and a[1].split("::")[-1] == want and a[1].startswith("store::Store"):
+                    continue
+                if a[0] == "call" and a[1].split("::")[-1] in ("and_then", "map", "from_residual", "branch"):
+                    continue
+                bad.append(term_str(a)[:50])
+            ob("%s::%s" % (QNAME[Q], name), not bad and bool(alts), q, "every non-None result is the pair returned by Store::%s (%s)" % (want, bad or "ok"))
+        cl = prog.fn("%s::remove::{closure#0}" % Q)
+        if cl is not None:
+            r = strip(ret_term(view, cl))
+            ok = r[0] == "tuple" and len(r[1]) == 2 and _is_payload_field(r[1][0], ("remove",), 0) and _is_payload_field(r[1][1], ("remove",), 1)
+            ob("%s::remove" % QNAME[Q], ok, cl, "returns (item, priority) of Store::remove's result (%s)" % term_str(r)[:70])
+        else:
+            q = prog.fn("%s::remove" % Q)
+            alts = [strip(a) for a in ret_alts(view, q)]
+            ok = all((a[0] == "adt" and a[2] in ("None", "Some")) for a in alts) and any(
+                a[0] == "adt" and a[2] == "Some" and any(_is_payload_field(x, ("remove",), 0) for x in walk(a)) for a in alts)
+            ob("%s::remove" % QNAME[Q], ok, q, "returns (item, priority) of Store::remove's result")
+        cl = prog.fn("%s::change_priority::{closure#0}" % Q)
+        if cl is not None:
+            r = strip(ret_term(view, cl))
+            ob("%s::change_priority" % QNAME[Q], _is_payload_field(r, ("change_priority",), 0), cl, "returns the old priority handed back by Store::change_priority (%s)" % term_str(r)[:70])
+        else:
+            q = prog.fn("%s::change_priority" % Q)
+            alts = [strip(a) for a in ret_alts(view, q)]
+            ok = any(a[0] == "adt" and a[2] == "Some" and _is_payload_field(a[3][0], ("change_priority",), 0) for a in alts)
+            ob("%s::change_priority" % QNAME[Q], ok, q, "returns the old priority handed back by Store::change_priority")
+        q = prog.fn("%s::change_priority_by" % Q)
+        ctx.anchor("%s::change_priority_by" % Q, q is not None)
+        alts = [strip(a) for a in ret_alts(view, q)]
+        ok = False
+        for a in alts:
+            if a[0] == "call" and a[1].split("::")[-1] == "is_some" and any(c[1].split("::")[-1] == "change_priority_by" for c in _calls_in(a)):
+                ok = True
+        if not ok and all(a[0] == "const" for a in alts) and {a[1].replace("const ", "") for a in alts} == {"true", "false"}:
+            ok = True  # match form: Some => true, None => false (R-ABSENT ties the arms to the lookup)
+        ob("%s::change_priority_by" % QNAME[Q], ok, q, "returns whether the lookup succeeded (%s)" % [term_str(a)[:40] for a in alts])
+        q = prog.fn("%s::push" % Q)
+        alts = [strip(a) for a in ret_alts(view, q)]
+        bad = []
+        some = 0
+        for a in alts:
+            if a[0] == "adt" and a[2] == "None":
+                continue
+            if a[0] == "adt" and a[2] == "Some":
+                x = strip(a[3][0])
+                if x[0] == "call" and x[1] in ("std::mem::replace",) and what_entry_part(("deref", x[2][0])) == "priority" and is_param(x[2][1], 3):
+                    some += 1
+                    continue
+            bad.append(term_str(a)[:60])
+        ob("%s::push" % QNAME[Q], not bad and some >= 1, q, "returns None or Some(the priority replaced in the entry) (%s)" % (bad or "ok"))
